@@ -63,6 +63,10 @@ int main (int argc, char** argv)
     expect ("identity j00", I.j00, std::complex<double>(1,0)); expect ("identity j01", I.j01, std::complex<double>(0,0));
     expect ("identity j10", I.j10, std::complex<double>(0,0)); expect ("identity j11", I.j11, std::complex<double>(1,0)); }, 1);
 #endif
+  // assignment of a real scalar, of a complex scalar, of another matrix
+  fn ("jones_assign_real", [] { Jones<double> a = jones_in ("a"); double r = in ("r"); a = r; out_jones ("r", a); });
+  fn ("jones_assign_complex", [] { Jones<double> a = jones_in ("a"); std::complex<double> z = complex_in ("z"); a = z; out_jones ("r", a); });
+  fn ("jones_assign_copy", [] { Jones<double> a = jones_in ("a"), b = jones_in ("b"); b = a; out_jones ("r", b); });
   fn ("jones_scalar_ctor", [] { double r = in ("r"); out_jones ("r", Jones<double> (r)); });
 
   // casts to and from the generic 2x2 matrix type
